@@ -315,6 +315,14 @@ def _binder_of(use, name, f):
     while p is not None:
         if isinstance(p, (ast.For, ast.AsyncFor)) and isinstance(p.target, ast.Name) and p.target.id == name and child is not p.iter and child is not p.target:
             return p.iter
+        # `for k, v in d.items()` / comprehension generator with a (key, value) target: the value position ranges over d.values()
+        gens_ = [p] if isinstance(p, (ast.For, ast.AsyncFor)) else p.generators if isinstance(p, (ast.ListComp, ast.SetComp, ast.GeneratorExp, ast.DictComp)) else []
+        for g_ in gens_:
+            t_ = g_.target
+            if isinstance(t_, ast.Tuple) and len(t_.elts) == 2 and isinstance(t_.elts[1], ast.Name) and t_.elts[1].id == name:
+                it_ = g_.iter
+                if isinstance(it_, ast.Call) and isinstance(it_.func, ast.Attribute) and it_.func.attr == "items" and isinstance(it_.func.value, ast.Name):
+                    return ast.Call(func=ast.Attribute(value=it_.func.value, attr="values", ctx=ast.Load()), args=[], keywords=[])
         if isinstance(p, (ast.ListComp, ast.SetComp, ast.GeneratorExp, ast.DictComp)):
             for i, g in enumerate(p.generators):
                 # (the iterable of the first generator is evaluated outside the comprehension's scope)
@@ -353,6 +361,34 @@ def _val_atoms(e, f, is_pp, seen):
     return {f"other:{norm(e)[:40]}"}
 
 
+def _dict_value_atoms(name, f, is_pp, seen):
+    """where the values stored in the dict `name` come from (d[k] = v, d.setdefault(k, v), d = {k: v ..}, dict comprehension)"""
+    key = ("d", name)
+    if key in seen:
+        return set()
+    seen = seen | {key}
+    out, found = set(), False
+    for n in ast.walk(f):
+        if isinstance(n, (ast.Assign, ast.AnnAssign)):
+            tg = n.targets if isinstance(n, ast.Assign) else [n.target]
+            v = n.value
+            if len(tg) == 1 and isinstance(tg[0], ast.Subscript) and norm(tg[0].value) == name and v is not None:
+                found = True
+                out |= _val_atoms(v, f, is_pp, seen)
+            elif len(tg) == 1 and norm(tg[0]) == name and v is not None:
+                if isinstance(v, ast.Dict):
+                    found = True
+                    for x in v.values:
+                        out |= _val_atoms(x, f, is_pp, seen)
+                elif isinstance(v, ast.DictComp):
+                    found = True
+                    out |= _val_atoms(v.value, f, is_pp, seen)
+        elif isinstance(n, ast.Call) and isinstance(n.func, ast.Attribute) and norm(n.func.value) == name and n.func.attr == "setdefault" and len(n.args) == 2:
+            found = True
+            out |= _val_atoms(n.args[1], f, is_pp, seen)
+    return out if found else {f"name:{name}"}
+
+
 def _elem_atoms(e, f, is_pp, seen):
     """where the elements of an iterable come from"""
     if isinstance(e, (ast.ListComp, ast.GeneratorExp, ast.SetComp)):
@@ -364,6 +400,13 @@ def _elem_atoms(e, f, is_pp, seen):
         return out
     if isinstance(e, ast.Call) and dotted(e.func) in ("list", "tuple", "sorted", "reversed", "set", "iter", "dict.fromkeys") and len(e.args) >= 1:
         return _elem_atoms(e.args[0], f, is_pp, seen)
+    if isinstance(e, ast.Call) and dotted(e.func) == "map" and len(e.args) == 2:
+        if getattr(is_pp, "callable", lambda x: False)(e.args[0]):
+            return {"pp"}
+        return {f"other:{norm(e)[:40]}"}
+    # values of a dict: d.values() / the value of `for k, v in d.items()` is handled by the binder below
+    if isinstance(e, ast.Call) and isinstance(e.func, ast.Attribute) and e.func.attr == "values" and not e.args and isinstance(e.func.value, ast.Name):
+        return _dict_value_atoms(e.func.value.id, f, is_pp, seen)
     if isinstance(e, ast.IfExp):
         return _elem_atoms(e.body, f, is_pp, seen) | _elem_atoms(e.orelse, f, is_pp, seen)
     if isinstance(e, ast.BinOp) and isinstance(e.op, ast.Add):
@@ -404,7 +447,20 @@ def _provenance(arg, f, table, cname):
     """is the constructor argument built only from preprocess_arg(x, table) results?"""
 
     def is_pp(e):
-        return isinstance(e, ast.Call) and dotted(e.func) == "preprocess_arg" and len(e.args) >= 2 and norm(e.args[1]) == table
+        if not (isinstance(e, ast.Call) and dotted(e.func) == "preprocess_arg"):
+            return False
+        tbl_arg = e.args[1] if len(e.args) >= 2 else next((k.value for k in e.keywords if k.arg == "table"), None)
+        return tbl_arg is not None and norm(tbl_arg) == table
+
+    def is_pp_callable(fn_):
+        """a callable that maps x to preprocess_arg(x, <table>): functools.partial(preprocess_arg, table=<table>) or a lambda"""
+        if isinstance(fn_, ast.Call) and (dotted(fn_.func) or "").endswith("partial") and fn_.args and dotted(fn_.args[0]) == "preprocess_arg":
+            return any(k.arg == "table" and norm(k.value) == table for k in fn_.keywords)
+        if isinstance(fn_, ast.Lambda) and len(fn_.args.args) == 1:
+            return is_pp(fn_.body) and norm(fn_.body.args[0]) == fn_.args.args[0].arg
+        return False
+
+    is_pp.callable = is_pp_callable
 
     if isinstance(arg, (ast.ListComp, ast.GeneratorExp)):
         return (is_pp(arg.elt), "comprehension element")
@@ -456,4 +512,7 @@ def _provenance(arg, f, table, cname):
         if atoms == {"pp"}:
             return True, ""
         return False, f"`{name}` is assigned / extended from other sources ({sorted(a for a in atoms if a != 'pp')[:3]})"
-    return False, "unrecognised argument form"
+    atoms = _elem_atoms(arg, f, is_pp, set())
+    if atoms == {"pp"}:
+        return True, ""
+    return False, f"unrecognised argument form ({sorted(a for a in atoms if a != 'pp')[:3]})"
